@@ -8,13 +8,23 @@ Proved (no assumption on the tree, any oracle = any map iteration order and any 
                         a free slot for the requested disk type
   placement_preferences the first server lies in a data center / rack / is a node that passes the three filter closures,
                         in particular the requested data center, rack and server are honoured
-The remaining conjuncts of the judge `placementOK` (count 1+x+y+z, pairwise distinctness, the rack / data-center
-pattern of the rest) are checked on every answer of the implementation by the correspondence run.
+Proved for every WELL-FORMED topology (`WF`: ids unique among siblings — data centers, racks of a data center,
+nodes of a rack; decidable; real topologies satisfy it because `children` is a Go map keyed by id):
+  placement_shape       the answer is (main server + z DIFFERENT nodes of the main rack) ++ (one server in each of y
+                        DIFFERENT other racks of the main data center) ++ (one server in each of x DIFFERENT other
+                        data centers)
+  placement_sound       result = ok servers → `placementOK tr op servers = true`: the whole judge (count 1+x+y+z,
+                        pairwise distinct, free slots, same-rack / other-racks / other-data-centers pattern, requested
+                        data center / rack / server honoured)
+  placement_count       the count 1+x+y+z needs no well-formedness; placement_distinct: `servers.Nodup`
+Key lemmas (Lemmas/C10.lean): `permute` and `sortW` are permutations for every oracle (`permute_perm`, `sortW_perm`),
+so `pickNodes` returns exactly n different children (`pick_shape`).
 -/
 import SwV.Model.C10
 import SwV.Spec.C10
+import SwV.Lemmas.C10
 namespace SwV.Props.C10
-open SwV.Model.C10 SwV.Spec.C10
+open SwV.Model.C10 SwV.Spec.C10 SwV.Lemmas.C10
 
 theorem mem_of_getElem? {α : Type} {l : List α} {i : Nat} {y : α} (h : l[i]? = some y) : y ∈ l :=
   List.mem_of_getElem? h
@@ -310,6 +320,250 @@ theorem requested_dc_honoured (tr : Tree) (op : Opt) (o : Oracle) (servers : Lis
   refine ⟨_, hh, ?_⟩
   simp only [dcFilter, hw, Bool.and_eq_true, beq_iff_eq] at hf
   exact hf.1.1.1
+
+/-! ## the full judge: count, distinctness, rack / data-center pattern -/
+
+/-- well-formed topology: ids are unique among siblings (data centers of the topology, racks of a data
+    center, data nodes of a rack).  Real topologies satisfy this: `children` is a Go map keyed by the id. -/
+def WF (tr : Tree) : Prop :=
+  (tr.map (·.id)).Nodup ∧
+    ∀ d ∈ tr, (d.racks.map (·.id)).Nodup ∧ ∀ rk ∈ d.racks, (rk.nodes.map (·.id)).Nodup
+
+instance (tr : Tree) : Decidable (WF tr) := by unfold WF; infer_instance
+
+/-- in a well-formed topology the judge's lookup by ids finds the node -/
+theorem hasSlot_of_inTree (tr : Tree) (hwf : WF tr) (t : Nat) (p : Path) (h : InTreeWithSlot tr t p) :
+    hasSlot tr t p = true := by
+  obtain ⟨d, hd, rk, hrk, n, hn, rfl, hav⟩ := h
+  have f1 := find_unique (·.id) tr hwf.1 d hd
+  have f2 := find_unique (·.id) d.racks (hwf.2 d hd).1 rk hrk
+  have f3 := find_unique (·.id) rk.nodes ((hwf.2 d hd).2 rk hrk) n hn
+  simp only [hasSlot, findNode, f1, f2, f3]
+  simpa using hav
+
+theorem nodup_of_map {α β : Type} (f : α → β) (l : List α) (h : (l.map f).Nodup) : l.Nodup :=
+  (List.pairwise_map.mp h).imp (fun hne e => hne (congrArg f e))
+
+theorem nodup_map_inj {α β : Type} (f : α → β) (l : List α) (hf : ∀ a b, f a = f b → a = b) (h : l.Nodup) :
+    (l.map f).Nodup :=
+  List.pairwise_map.mpr (h.imp (fun hne e => hne (hf _ _ e)))
+
+/-- the shape of every successful answer: the main server and z more DIFFERENT nodes of the main rack, then
+    one server in each of y DIFFERENT other racks of the main data center, then one server in each of x
+    DIFFERENT other data centers; the main data center / rack / server pass the filter closures -/
+theorem placement_shape (tr : Tree) (hwf : WF tr) (op : Opt) (o : Oracle) (servers : List Path)
+    (h : findEmptySlots tr op o = .ok servers) :
+    ∃ (D R N : Nat) (ns : List Nat) (s1 s2 : List Path),
+      servers = ((D, R, N) :: ns.map fun n => (D, R, n)) ++ s1 ++ s2 ∧
+      ns.length = op.z ∧ (N :: ns).Nodup ∧
+      s1.length = op.y ∧ (∀ p ∈ s1, p.1 = D) ∧ (R :: s1.map fun p => p.2.1).Nodup ∧
+      s2.length = op.x ∧ (D :: s2.map fun p => p.1).Nodup ∧
+      (∀ i, op.dc = some i → D = i) ∧ (∀ i, op.rack = some i → R = i) ∧ (∀ i, op.node = some i → N = i) := by
+  unfold findEmptySlots at h
+  split at h
+  · simp at h
+  · next mainDC otherDCs o1 h1 =>
+    split at h
+    · simp at h
+    · next mainRack otherRacks o2 h2 =>
+      split at h
+      · simp at h
+      · next mainSrv otherSrvs o3 h3 =>
+        have p1 := pick_sound _ _ _ _ _ _ _ _ h1
+        have p2 := pick_sound _ _ _ _ _ _ _ _ h2
+        have p3 := pick_sound _ _ _ _ _ _ _ _ h3
+        have q1 := pick_shape _ _ _ _ _ _ _ _ h1
+        have q2 := pick_shape _ _ _ _ _ _ _ _ h2
+        have q3 := pick_shape _ _ _ _ _ _ _ _ h3
+        simp only at h
+        split at h
+        · simp at h
+        · next acc part o4 h4 =>
+          split at h
+          · simp at h
+          · next acc2 part2 o5 h5 =>
+            simp at h; subst h
+            obtain ⟨s1, e1, m1, d1⟩ := reserveRacks_shape _ _ _ _ _ _ _ _ h4
+            obtain ⟨s2, e2, m2⟩ := reserveDCs_shape _ _ _ _ _ _ _ h5
+            have wd := hwf.2 mainDC p1.2.1.1
+            have n1 := q1.2.nodup_map (·.id) hwf.1
+            have n2 := q2.2.nodup_map (·.id) wd.1
+            have n3 := q3.2.nodup_map (·.id) (wd.2 mainRack p2.2.1.1)
+            refine ⟨mainDC.id, mainRack.id, mainSrv.id, otherSrvs.map (·.id), s1, s2, ?_, ?_, ?_, ?_, d1, ?_, ?_, ?_, ?_, ?_, ?_⟩
+            · rw [e2, e1, List.map_map]; rfl
+            · rw [List.length_map, q3.1]; omega
+            · simpa using n3
+            · have := congrArg List.length m1
+              simp only [List.length_map] at this
+              rw [this, q2.1]; omega
+            · rw [m1]; simpa using n2
+            · have := congrArg List.length m2
+              simp only [List.length_map] at this
+              rw [this, q1.1]; omega
+            · rw [m2]; simpa using n1
+            · intro i hi
+              have := p1.1
+              simp only [dcFilter, hi, Bool.and_eq_true, beq_iff_eq] at this
+              exact this.1.1.1
+            · intro i hi
+              have := p2.1
+              simp only [rackFilter, hi, Bool.and_eq_true, beq_iff_eq] at this
+              exact this.1.1.1
+            · intro i hi
+              have := p3.1
+              simp only [nodeFilter, hi, Bool.and_eq_true, beq_iff_eq] at this
+              exact this.1
+
+/-- a list of that shape whose servers all have a slot passes the judge -/
+theorem judge_of_shape (tr : Tree) (op : Opt) (servers : List Path) (D R N : Nat) (ns : List Nat) (s1 s2 : List Path)
+    (hs : servers = ((D, R, N) :: ns.map fun n => (D, R, n)) ++ s1 ++ s2)
+    (hz : ns.length = op.z) (hN : (N :: ns).Nodup)
+    (hy : s1.length = op.y) (hD1 : ∀ p ∈ s1, p.1 = D) (hR : (R :: s1.map fun p => p.2.1).Nodup)
+    (hx : s2.length = op.x) (hD : (D :: s2.map fun p => p.1).Nodup)
+    (pd : ∀ i, op.dc = some i → D = i) (pr : ∀ i, op.rack = some i → R = i) (pn : ∀ i, op.node = some i → N = i)
+    (hslot : ∀ p ∈ servers, hasSlot tr op.disk p = true) :
+    placementOK tr op servers = true := by
+  have hbase : ((D, R, N) :: ns.map fun n => (D, R, n)) = (N :: ns).map fun n => (D, R, n) := rfl
+  have hbl : ((D, R, N) :: ns.map fun n => (D, R, n)).length = op.z + 1 := by simp [hz]
+  have hR' := List.nodup_cons.mp hR
+  have hD' := List.nodup_cons.mp hD
+  have c1 : (servers.length != 1 + op.x + op.y + op.z) = false := by
+    rw [hs]; simp only [List.length_append, hbl, hy, hx]; simp; omega
+  have c2 : nodupB servers = true := by
+    rw [nodupB_iff, hs, List.append_assoc, List.nodup_append]
+    refine ⟨?_, ?_, ?_⟩
+    · rw [hbase]; exact nodup_map_inj _ _ (by intro a b e; simpa using e) hN
+    · rw [List.nodup_append]
+      refine ⟨nodup_of_map _ _ hR'.2, nodup_of_map _ _ hD'.2, ?_⟩
+      intro a ha b hb e
+      subst e
+      exact hD'.1 (by rw [← hD1 a ha]; exact List.mem_map_of_mem hb)
+    · intro a ha b hb e
+      subst e
+      rw [hbase] at ha
+      obtain ⟨n, _, rfl⟩ := List.mem_map.mp ha
+      rcases List.mem_append.mp hb with hb | hb
+      · exact hR'.1 (List.mem_map.mpr ⟨_, hb, rfl⟩)
+      · exact hD'.1 (List.mem_map.mpr ⟨_, hb, rfl⟩)
+  have c3 : servers.all (hasSlot tr op.disk) = true := List.all_eq_true.mpr hslot
+  have t1 : servers.take (op.z + 1) = ((D, R, N) :: ns.map fun n => (D, R, n)) := by
+    rw [hs, List.append_assoc, List.take_append_of_le_length (by omega), ← hbl, List.take_length]
+  have t2 : (servers.drop (op.z + 1)).take op.y = s1 := by
+    rw [hs, List.append_assoc, ← hbl, List.drop_left, ← hy, List.take_left]
+  have t3 : servers.drop (op.z + 1 + op.y) = s2 := by
+    rw [← List.drop_drop, hs, List.append_assoc, ← hbl, List.drop_left, ← hy, List.drop_left]
+  have c4 : (servers.take (op.z + 1)).all (fun p => p.1 == D && p.2.1 == R) = true := by
+    rw [t1, hbase, List.all_eq_true]
+    intro p hp
+    obtain ⟨n, _, rfl⟩ := List.mem_map.mp hp
+    simp
+  have c5 : ((servers.drop (op.z + 1)).take op.y).all (fun p => p.1 == D && p.2.1 != R) = true := by
+    rw [t2, List.all_eq_true]
+    intro p hp
+    have : p.2.1 ≠ R := fun e => hR'.1 (by rw [← e]; exact List.mem_map.mpr ⟨_, hp, rfl⟩)
+    simp [hD1 p hp, this]
+  have c6 : nodupB (((servers.drop (op.z + 1)).take op.y).map fun p => p.2.1) = true := by
+    rw [t2, nodupB_iff]; exact hR'.2
+  have c7 : (servers.drop (op.z + 1 + op.y)).all (fun p => p.1 != D) = true := by
+    rw [t3, List.all_eq_true]
+    intro p hp
+    have : p.1 ≠ D := fun e => hD'.1 (by rw [← e]; exact List.mem_map.mpr ⟨_, hp, rfl⟩)
+    simp [this]
+  have c8 : nodupB ((servers.drop (op.z + 1 + op.y)).map fun p => p.1) = true := by
+    rw [t3, nodupB_iff]; exact hD'.2
+  have c9 : op.dc = none ∨ op.dc = some D := by
+    cases hdc : op.dc with
+    | none => exact .inl rfl
+    | some d => rw [pd d hdc]; exact .inr rfl
+  have c10 : op.rack = none ∨ op.rack = some R := by
+    cases hrk : op.rack with
+    | none => exact .inl rfl
+    | some r => rw [pr r hrk]; exact .inr rfl
+  have c11 : op.node = none ∨ op.node = some N := by
+    cases hnd : op.node with
+    | none => exact .inl rfl
+    | some n => rw [pn n hnd]; exact .inr rfl
+  unfold placementOK placementJudge
+  simp only [c1, c2, c3, Bool.false_eq_true, Bool.not_true, if_false]
+  obtain ⟨m, tl, hm⟩ : ∃ m tl, servers = m :: tl := ⟨(D, R, N), _, by rw [hs]; rfl⟩
+  have hm' : m = (D, R, N) := by
+    rw [hs] at hm; simp only [List.cons_append] at hm; exact (List.cons.inj hm).1.symm
+  rw [hm] at c4 c5 c6 c7 c8 ⊢
+  subst hm'
+  simp only [c4, c5, c6, c7, c8, Bool.false_eq_true, Bool.not_true, Bool.or_self, if_false]
+  rcases c9 with e9 | e9 <;> rcases c10 with e10 | e10 <;> rcases c11 with e11 | e11 <;> simp [e9, e10, e11]
+
+/-- C10 MAIN THEOREM: for EVERY well-formed topology, EVERY option and EVERY oracle (= every map iteration order
+    and every random draw), a successful answer of findEmptySlotsForOneVolume passes the judge `placementOK`:
+    exactly 1+x+y+z pairwise distinct servers, each in the topology with a free slot; the first z+1 in one rack,
+    the next y in y pairwise different other racks of the same data center, the last x in x pairwise different
+    other data centers; requested data center / rack / server honoured. -/
+theorem placement_sound (tr : Tree) (hwf : WF tr) (op : Opt) (o : Oracle) (servers : List Path)
+    (h : findEmptySlots tr op o = .ok servers) : placementOK tr op servers = true := by
+  obtain ⟨D, R, N, ns, s1, s2, hs, hz, hN, hy, hD1, hR, hx, hD, pd, pr, pn⟩ := placement_shape tr hwf op o servers h
+  exact judge_of_shape tr op servers D R N ns s1 s2 hs hz hN hy hD1 hR hx hD pd pr pn
+    (fun p hp => hasSlot_of_inTree tr hwf op.disk p (placement_slots tr op o servers h p hp))
+
+/-- (a) the count alone needs no well-formedness … -/
+theorem placement_count (tr : Tree) (op : Opt) (o : Oracle) (servers : List Path)
+    (h : findEmptySlots tr op o = .ok servers) : servers.length = 1 + op.x + op.y + op.z := by
+  unfold findEmptySlots at h
+  split at h
+  · simp at h
+  · next mainDC otherDCs o1 h1 =>
+    split at h
+    · simp at h
+    · next mainRack otherRacks o2 h2 =>
+      split at h
+      · simp at h
+      · next mainSrv otherSrvs o3 h3 =>
+        have q1 := pick_shape _ _ _ _ _ _ _ _ h1
+        have q2 := pick_shape _ _ _ _ _ _ _ _ h2
+        have q3 := pick_shape _ _ _ _ _ _ _ _ h3
+        simp only at h
+        split at h
+        · simp at h
+        · next acc part o4 h4 =>
+          split at h
+          · simp at h
+          · next acc2 part2 o5 h5 =>
+            simp at h; subst h
+            obtain ⟨s1, e1, m1, _⟩ := reserveRacks_shape _ _ _ _ _ _ _ _ h4
+            obtain ⟨s2, e2, m2⟩ := reserveDCs_shape _ _ _ _ _ _ _ h5
+            have l1 := congrArg List.length m1
+            have l2 := congrArg List.length m2
+            simp only [List.length_map] at l1 l2
+            rw [e2, e1]
+            simp only [List.length_append, List.length_cons, List.length_map, l1, l2, q1.1, q2.1, q3.1]
+            omega
+
+/-- (b), (c) as plain propositions, for readers who do not want to unfold the judge -/
+theorem placement_distinct (tr : Tree) (hwf : WF tr) (op : Opt) (o : Oracle) (servers : List Path)
+    (h : findEmptySlots tr op o = .ok servers) : servers.Nodup := by
+  have := placement_sound tr hwf op o servers h
+  unfold placementOK placementJudge at this
+  split at this
+  · simp at this
+  · split at this
+    · simp at this
+    · next hn => rw [← nodupB_iff]; simpa using hn
+
+/-- well-formedness is needed: with two racks of the same id the two servers of replication 010 are in
+    "rack 11" twice and the judge rejects the answer (real topologies cannot have this: map keys) -/
+example : ¬ WF [⟨1, [⟨11, [⟨111, ⟨5, 0, 0, 0⟩, {}⟩]⟩, ⟨11, [⟨112, ⟨5, 0, 0, 0⟩, {}⟩]⟩]⟩] := by decide
+
+/-- non-vacuity of `placement_sound`: a well-formed two-data-center topology where replication 111 succeeds
+    (the answer has 1+1+1+1 = 4 servers) and the judge accepts it -/
+def exTree : Tree :=
+  [⟨1, [⟨11, [⟨111, ⟨5, 0, 0, 0⟩, {}⟩, ⟨112, ⟨5, 2, 0, 0⟩, {}⟩]⟩, ⟨12, [⟨121, ⟨5, 1, 0, 0⟩, {}⟩, ⟨122, ⟨2, 1, 0, 0⟩, {}⟩]⟩]⟩,
+   ⟨2, [⟨21, [⟨211, ⟨3, 0, 0, 0⟩, {}⟩]⟩]⟩]
+def exOpt : Opt := { x := 1, y := 1, z := 1, disk := 0, dc := some 1 }
+
+example : WF exTree := by decide
+example : findEmptySlots exTree exOpt [0, 0, 0, 0, 0, 0, 0, 0, 0, 0, 0, 0, 0, 0, 0, 0, 0, 0, 0, 0]
+    = .ok [(1, 11, 111), (1, 11, 112), (1, 12, 121), (2, 21, 211)] := by decide
+example : placementOK exTree exOpt [(1, 11, 111), (1, 11, 112), (1, 12, 121), (2, 21, 211)] = true :=
+  placement_sound exTree (by decide) exOpt [0, 0, 0, 0, 0, 0, 0, 0, 0, 0, 0, 0, 0, 0, 0, 0, 0, 0, 0, 0] _ (by decide)
 
 /-- the hypotheses are satisfiable: a two-data-center topology where replication 110 succeeds -/
 example : findEmptySlots
